@@ -457,7 +457,16 @@ class Sim:
         self.client.set_status_callback(self._styled(status_b))
         self.client.set_receive_callback(self._styled(recv_b))
 
+    status_cb_active = 0
+
     async def _on_status(self, state, _new=False):
+        self.status_cb_active += 1
+        try:
+            return await self._on_status_body(state, _new)
+        finally:
+            self.status_cb_active -= 1
+
+    async def _on_status_body(self, state, _new=False):
         if self.callbacks_replaced and not _new:
             self.old_cb_calls_after_replacement += 1
         self.status.append(state.name)
